@@ -70,6 +70,7 @@ func changeRequestToTarget(req *http.Request, httpsDefault bool) error {
 	}
 
 	targetUrl.Path = req.URL.Path
+	targetUrl.RawPath = req.URL.RawPath // Keep the client's encoding of the path (e.g. %2F is not a path separator)
 	targetUrl.RawQuery = req.URL.RawQuery
 	targetUrl.Fragment = req.URL.Fragment
 	req.URL = targetUrl
